@@ -89,7 +89,10 @@ def handle (st : DState) : String → P (DState × String)
   | "env" => do
     let sty ← pList (do let s ← pStr; let a ← pNat; let h ← pBool; pure (s, a, h))
     let sg ← pList (do let a ← pNat; let t ← pStr; pure (a, t))
-    pure ({ st with env := { styles := sty, sgrs := sg } }, "ok")
+    -- the stream theorems assume every SGR code is a complete control sequence: re-checked
+    -- here, with the tokenizer the theorems use, on the codes of the REAL escape-code cache
+    let allComplete := sg.all fun (_, t) => complete t
+    pure ({ st with env := { styles := sty, sgrs := sg } }, if allComplete then "ok" else "sgr-incomplete")
   | "cell" => do
     let s ← pStr; let sty ← pStr
     pure (st, encCell (mkCell M WC s sty))
